@@ -48,11 +48,14 @@ static void judge(OpStat& st, const char* cls, R scalar, R model, bool have_batc
         return;
     st.evals++;
     st.cell(cell);
-    if (!eq(scalar, model))
+    // two independent observations: a listed finding about the model value (e.g. rotl/rotr on signed types, where scalar
+    // and batch are wrong in the same way) must not hide a scalar overload that drifts away from the batch kernels
+    const bool bad_model = !eq(scalar, model), bad_batch = have_batch && !eq(scalar, batch0);
+    if (bad_model)
         viol(st, cls, "{" + wit.str() + ",\"scalar\":\"" + hexv(scalar) + "\",\"model\":\"" + hexv(model) + "\",\"against\":\"model\"}");
-    else if (have_batch && !eq(scalar, batch0))
-        viol(st, cls, "{" + wit.str() + ",\"scalar\":\"" + hexv(scalar) + "\",\"batch_lane0\":\"" + hexv(batch0) + "\",\"against\":\"batch\"}");
-    else if (st.want_sample())
+    if (bad_batch)
+        viol(st, "scalar_differs_from_batch", "{" + wit.str() + ",\"scalar\":\"" + hexv(scalar) + "\",\"batch_lane0\":\"" + hexv(batch0) + "\",\"against\":\"batch\"}");
+    if (!bad_model && !bad_batch && st.want_sample())
         st.samples.push_back("{" + wit.str() + ",\"scalar\":\"" + hexv(scalar) + "\"}");
 }
 template <class R>
